@@ -8,6 +8,7 @@ package main
 //       reset codes: at most once, retry cap, expiry; wrong passwords; case-insensitive login uniqueness).
 
 import (
+	"sort"
 	"bytes"
 	"crypto/hmac"
 	"crypto/sha256"
@@ -39,7 +40,7 @@ type auProg struct {
 
 var auKinds = []string{"hi", "hi", "hibad", "hiold", "hi2same", "hi2diff", "loginok", "loginok", "logintoken", "loginwrongpass", "loginnouser", "loginbadscheme",
 	"logintokenmut", "logintokenforeign", "logintokenserial", "logintokentrunc", "logintokenext", "getme", "getme", "subme", "pubgrp", "pubforged", "obo", "note",
-	"leave", "setme", "delmsg", "accnew", "accnewcase", "reset", "codeok", "codewrong", "codewrong", "jump", "susp", "unsusp", "reconnect", "restart", "loginanon"}
+	"leave", "setme", "delmsg", "accnew", "accnewcase", "reset", "codeok", "codewrong", "codewrong", "jump", "susp", "unsusp", "reconnect", "restart", "loginanon", "accrename"}
 
 func genAuth(rt *rapid.T) auProg {
 	p := auProg{Sc: genScenario(rt, 3, 1, true)}
@@ -115,6 +116,14 @@ func runAuth(t *testing.T, sched simrt.Schedule, prog auProg) ([]Violation, RunS
 		var issued []issuedToken
 		for _, u := range w.Users {
 			issued = append(issued, issuedToken{Raw: u.Token, Uid: u.Uid, Level: u.Level, Expires: simBaseTime.Add(time.Duration(simCfg.TokenExpire) * time.Second)})
+		}
+		if simCfg.RequireCred {
+			// half of the seeded accounts have their required credential validated
+			for _, u := range w.Users {
+				if u.Idx%2 == 0 {
+					ensureCred(u, fmt.Sprintf("user%d@example.com", u.Idx))
+				}
+			}
 		}
 		newAccounts := map[string]types.Uid{} // lower-cased login -> uid
 		type codeState struct {
@@ -280,9 +289,39 @@ func runAuth(t *testing.T, sched simrt.Schedule, prog auProg) ([]Violation, RunS
 					m.Ver, m.VerS = true, "0.22"
 				}
 			case "loginok":
+				// with required credential validation: the login succeeds only when the account's credential is
+				// validated (else 300 and no identity), and a store failure while looking that up must not log in
+				faulty := simCfg.RequireCred && a.A%4 == 0
+				if faulty {
+					simStore.Fault = &faultPlan{FailAt: 1, FailMethod: "CredGetAll"}
+					simrt.Probe("fault.store_armed")
+				}
 				s := exec(c, opLogin(u.Idx, "basic"))
+				fired := simStore.Fault != nil && simStore.Fault.Fired
+				simStore.Fault = nil
 				valid := !suspended[u.Idx] && w.Disk.Users[u.Uid] != nil
-				judgeLogin(s, valid, u.Uid, u.Level, "password")
+				need := simCfg.RequireCred && u.Level == auth.LevelAuth && !hasValidatedCred(w, u.Uid)
+				if valid && m.Ver && m.Uid.IsZero() && (fired || need) {
+					code := reply(c, s)
+					switch {
+					case code >= 200 && code < 300 && fired:
+						simrt.Probe("fault.store_err")
+						out = append(out, vio("C11", "login-despite-store-failure", "%s: password login of %s answered %d although the credential lookup failed", where, u.Uid.UserId(), code))
+						m.Uid, m.Level = u.Uid, u.Level
+					case code >= 200 && code < 300:
+						out = append(out, vio("C11", "login-with-unvalidated-credential", "%s: password login of %s answered %d although its required credential is not validated", where, u.Uid.UserId(), code))
+						m.Uid, m.Level = u.Uid, u.Level
+					case fired:
+						simrt.Probe("fault.store_err")
+					case code != 300:
+						out = append(out, vio("C12", "valid-secret-refused password", "%s: valid password for %s (credential not validated) answered %d, expected 300", where, u.Uid.UserId(), code))
+					default:
+						simrt.Probe("c11.login_needs_validation")
+					}
+					checkIdentity(ci, where)
+				} else {
+					judgeLogin(s, valid, u.Uid, u.Level, "password")
+				}
 			case "logintoken":
 				var tk *issuedToken
 				for i := range issued {
@@ -444,6 +483,20 @@ func runAuth(t *testing.T, sched simrt.Schedule, prog auProg) ([]Violation, RunS
 					}
 				}
 				checkIdentity(ci, where)
+			case "accrename":
+				// change own login to another account's login spelled in upper case: logins are unique regardless of case
+				v := w.Users[(a.User+1+a.A%2)%len(w.Users)]
+				if v.Uid == m.Uid || w.Disk.Users[v.Uid] == nil {
+					continue
+				}
+				s := exec(c, opMsg(&ClientComMessage{Acc: &MsgClientAcc{User: "", Scheme: "basic", Secret: []byte(strings.ToUpper(v.Login) + ":stolen" + fmt.Sprint(a.A))}}))
+				code := reply(c, s)
+				if code >= 200 && code < 300 {
+					out = append(out, vio("C12", "login-renamed-to-existing", "%s: session of %s changed its login to %q which differs from the login of %s only in case: answered %d", where, m.Uid.UserId(), strings.ToUpper(v.Login), v.Uid.UserId(), code))
+				} else {
+					simrt.Probe("c12.rename_conflict_refused")
+				}
+				checkIdentity(ci, where)
 			case "reset":
 				// reset flow for a seeded user: needs a validated credential
 				cred := fmt.Sprintf("user%d@example.com", u.Idx)
@@ -568,6 +621,21 @@ func runAuth(t *testing.T, sched simrt.Schedule, prog auProg) ([]Violation, RunS
 				return out
 			}
 		}
+		// logins are unique regardless of letter case
+		seenLogin := map[string]string{}
+		var unames []string
+		for un := range w.Disk.Auth {
+			unames = append(unames, un)
+		}
+		sort.Strings(unames)
+		for _, un := range unames {
+			if ar := w.Disk.Auth[un]; ar.Scheme == "basic" {
+				if prev, dup := seenLogin[strings.ToLower(un)]; dup {
+					out = append(out, vio("C12", "logins-differ-only-in-case", "the store holds the logins %q and %q", prev, un))
+				}
+				seenLogin[strings.ToLower(un)] = un
+			}
+		}
 		return out
 	})
 	st.ProgHash = hashOf(prog)
@@ -581,6 +649,16 @@ func userIdxOf(w *simWorld, uid types.Uid) int {
 		}
 	}
 	return 0
+}
+
+// hasValidatedCred reports whether the account has a validated, live credential of the required method.
+func hasValidatedCred(w *simWorld, uid types.Uid) bool {
+	for _, cr := range w.Disk.Credentials {
+		if cr.User == uid && cr.Done && cr.DeletedAt == nil && cr.Method == simCredName {
+			return true
+		}
+	}
+	return false
 }
 
 // ensureCred gives a seeded user a validated credential (what replyCreateUser + validation would leave behind).
